@@ -419,6 +419,10 @@ def plan_c08(tier, seed):
     add("g2", 3, 1, 2, pre={"in1.txt.p": "p.out(in=in1.txt;)"}, id="C08-g2-i3-m2-pre1")
     add("g3", 2, 1, 2, pre={"in1.txt.p.q": "q.out(in=p.out(in=in1.txt;);)"}, id="C08-g3-i2-m2-preq1")
     # a process with two out-ports: the order holds on EACH of them
+    # a slow head task with MANY finished tasks behind it: 7 tasks on 2 slots, the head task (holding one slot) ends only
+    # when the last task has started, i.e. after tasks 1..5 went through the other slot; two out-ports
+    jobs.append(wf("C08", "g7d", 7, 1, 2, oracles=o, tier=tier, events_dep=False, extra="recorder-bfl", mode="delay", delay=0, id="C08-g7d-i7-m2-slow-head-task-delay0"))
+    jobs.append(wf("C08", "g7d", 7, 2, 2, oracles=o, tier=tier, events_dep=False, extra="recorder-bfl", mode="delay", delay=1, budget=20, id="C08-g7d-i7-b2-m2-slow-head-task-delay1"))
     # more input sets than a process has room for at once (buffer 1): four and five items behind each other
     add("g2", 4, 1, 2, mode="delay", delay=1, id="C08-g2-i4-b1-m2-delay1"); add("g2", 5, 1, 3, mode="delay", delay=1, id="C08-g2-i5-b1-m3-delay1")
     add("g7", 2, 1, 2, id="C08-g7-i2-m2-two-out-ports"); add("g7", 3, 1, 3, id="C08-g7-i3-m3-two-out-ports")
